@@ -573,7 +573,7 @@ var rRegistryClosure = &Rule{
 			if fn.Pkg == nil || !strings.HasSuffix(fn.Pkg.Pkg.Path(), "/errbase") || !strings.HasPrefix(fn.Name(), "Register") {
 				continue
 			}
-			sx.EachInstr(fn, func(in ssa.Instruction) {
+			regionOf(fn).each(func(in ssa.Instruction) {
 				mc, ok := in.(*ssa.MakeClosure)
 				if !ok {
 					return
